@@ -128,7 +128,10 @@ ParseHunk(body, L) ==
 (* Outer machine: one step per line of the file.  rstart = first line of    *)
 (* the pending resolved text, cstart = line of the open conflict-start      *)
 (* marker (0 = not in a conflict).                                          *)
-OuterInit == [hunks |-> <<>>, rstart |-> 1, cstart |-> 0]
+(* regions = <<first line, last line>> of every accepted conflict (start     *)
+(* marker through end marker), used to tell edits of resolved text from      *)
+(* edits of conflict regions.                                                *)
+OuterInit == [hunks |-> <<>>, rstart |-> 1, cstart |-> 0, regions |-> <<>>]
 EndsCrlf(line) == Len(line) >= 2 /\ line[Len(line)] = LF /\ line[Len(line) - 1] = CR
 (* when the end marker has no EOL the last EOL of every term is only a      *)
 (* separator (the EOL that terminated the start-marker line)                *)
@@ -148,7 +151,7 @@ OuterStep(st, lines, i, n, L) ==
           hunk == IF Last(lines[i]) # LF
                   THEN [t \in 1..Len(hunk0) |-> StripSep(hunk0[t], crlf)] ELSE hunk0
       IN [hunks |-> st.hunks \o (IF resolved = <<>> THEN <<>> ELSE << <<resolved>> >>) \o <<hunk>>,
-          rstart |-> i + 1, cstart |-> 0]
+          rstart |-> i + 1, cstart |-> 0, regions |-> Append(st.regions, <<st.cstart, i>>)]
     ELSE [st EXCEPT !.cstart = 0]
   ELSE st
 OuterFinish(st, lines) ==
@@ -162,6 +165,11 @@ FoldOuter(st, lines, i, n, L) ==
 
 SpecParse(bytes, n, L) ==
   LET lines == Lines(bytes) IN OuterFinish(FoldOuter(OuterInit, lines, 1, n, L), lines)
+(* the raw lines (markers, headers and bodies) of every accepted conflict    *)
+RawConflicts(bytes, n, L) ==
+  LET lines == Lines(bytes)
+      st == FoldOuter(OuterInit, lines, 1, n, L)
+  IN [k \in 1..Len(st.regions) |-> SubSeq(lines, st.regions[k][1], st.regions[k][2])]
 
 ---------------------------------------------------------------------------
 (* REFERENCE TRANSCRIPTION of the writer (materialize_conflict_hunks).      *)
@@ -266,13 +274,19 @@ Absent == <<-1>>
 UneditedOK(ids, out) == out = ids
 
 ConflictHunks(hs) == SelectSeq(hs, LAMBDA h : Len(h) > 1)
-(* the edit is confined to resolved regions: the file still parses, with    *)
-(* exactly the conflict hunks it had                                        *)
+(* the edit is confined to resolved regions: the file still parses, and     *)
+(* every conflict region (start marker, headers such as the two-line         *)
+(* "%%%%%%% diff from: / \\\\\\\        to:" header, bodies, end marker) is byte for  *)
+(* byte what was written.  An edit of any marker or header line - even one   *)
+(* the parser ignores, like the note line or a label - is therefore NOT in   *)
+(* scope, and neither is anything that makes the conflicts parse differently.*)
 EditInScope(mh, mat, new, n, L) ==
   /\ ~mh.res
   /\ SpecParse(mat, n, L) = [some |-> TRUE, hunks |-> mh.hunks]
   /\ LET p == SpecParse(new, n, L) IN
        p.some /\ ConflictHunks(p.hunks) = ConflictHunks(mh.hunks)
+  /\ RawConflicts(mat, n, L) # <<>>
+  /\ RawConflicts(new, n, L) = RawConflicts(mat, n, L)
 
 EditAppliedOK(ids, idc, simp, new, n, L, out, outc) ==
   LET p == SpecParse(new, n, L)
